@@ -181,6 +181,13 @@ func (smpl *Simple[Type]) main() {
 	case <-smpl.opts.Ctx.Done():
 	case <-smpl.graceful.IsBreaked():
 		smpl.gracefulStop()
+
+		// The prioritization discipline could be terminated due to an error while
+		// waiting for its graceful termination, at this point its error channel is
+		// already closed
+		if err := <-smpl.priority.Err(); err != nil {
+			smpl.err <- err
+		}
 	case err := <-smpl.priority.Err():
 		smpl.err <- err
 	}
